@@ -103,7 +103,7 @@ def gen_case(rng, index, tier):
     workdirs = dict(workdirs)
     workdirs[v] = d
     arg = c01.add_entry(L, rng, workdirs, 0, tag, set(), kinds=kinds,
-                        spellings=['rel', 'abs', 'dotslash', 'via_link_parent'],
+                        spellings=['rel', 'abs', 'dotslash', 'via_link_parent', 'via_link_ancestor'],
                         vol=v)
     if arg['spelling'].startswith('-'):
         arg['spelling'] = './' + arg['spelling']
